@@ -9,17 +9,18 @@ import (
 )
 
 // Value kinds:
-//   *Term            ints, bools
-//   Loc (pointer)    *Cell | *StructLoc | *ArrayLoc | NilPtr
-//   SymElem          pointer to element of a scalar array at symbolic index
-//   SliceVal
-//   StrVal
-//   IfaceVal
-//   *Closure / *ssa.Function / *ssa.Builtin / *BoundMethod
-//   *MapObj
-//   Tuple
-//   StructVal, ArrayVal (aggregate rvalues)
-//   float64 (concrete), SymFloat (exact-integer symbolic float)
+//
+//	*Term            ints, bools
+//	Loc (pointer)    *Cell | *StructLoc | *ArrayLoc | NilPtr
+//	SymElem          pointer to element of a scalar array at symbolic index
+//	SliceVal
+//	StrVal
+//	IfaceVal
+//	*Closure / *ssa.Function / *ssa.Builtin / *BoundMethod
+//	*MapObj
+//	Tuple
+//	StructVal, ArrayVal (aggregate rvalues)
+//	float64 (concrete), SymFloat (exact-integer symbolic float)
 type Value interface{}
 
 type Loc interface{}
